@@ -222,6 +222,8 @@ pub struct Engine {
     pub absgroups: Vec<(String, Vec<u32>)>,
     /// (group, lemma goal name): goals of the group are only as good as these lemma goals
     pub lemma_deps: Vec<(String, String)>,
+    /// while set, a decision on a condition this path has not decided before is refused (see `freeze_decisions`)
+    pub frozen: bool,
     // concrete replay
     pub inputs: HashMap<String, String>,
     pub drawn: Vec<(String, String)>,
@@ -257,6 +259,7 @@ impl Default for Engine {
             hyps: vec![],
             absgroups: vec![],
             lemma_deps: vec![],
+            frozen: false,
             inputs: HashMap::new(),
             drawn: vec![],
             rng: 0x9E3779B97F4A7C15,
@@ -291,6 +294,7 @@ impl Engine {
         self.hyps.clear();
         self.absgroups.clear();
         self.lemma_deps.clear();
+        self.frozen = false;
         self.drawn.clear();
         self.check_defined = false;
         self.ite_mode = false;
@@ -342,16 +346,19 @@ pub fn decide(c: Cond) -> bool {
         e.calls += 1;
         if e.calls > 200 * e.max_decisions.max(1) {
             // an (infeasible) cycle that only re-uses earlier outcomes would never end
-            return Err(());
+            return Err(false);
         }
         if let Some(&v) = e.pathmap.get(&id) {
             return Ok(v);
+        }
+        if e.frozen {
+            return Err(true);
         }
         let v = if e.pos < e.trail.len() {
             e.trail[e.pos]
         } else {
             if e.trail.len() >= e.max_decisions {
-                return Err(());
+                return Err(false);
             }
             e.trail.push(true);
             true
@@ -363,7 +370,9 @@ pub fn decide(c: Cond) -> bool {
     });
     match abort {
         Ok(v) => v,
-        Err(()) => std::panic::panic_any(PathAbort("decision bound")),
+        Err(false) => std::panic::panic_any(PathAbort("decision bound")),
+        // an ordinary panic: the scenario catches it with `catch` and turns it into a refuted goal
+        Err(true) => panic!("SYMX-FROZEN: the code branched on a condition this path had not decided"),
     }
 }
 
@@ -415,6 +424,13 @@ pub fn set_int_mode() {
 }
 pub fn set_range_assumed() {
     with(|e| e.range_assumed = true);
+}
+/// While frozen, the code under test may only re-use decisions this path has already taken; a branch on a new
+/// condition panics (catch it with `catch`). Used by non-interference scenarios: a second run on inputs that differ
+/// only where the result must not depend on them has to follow the first run's path without asking anything new.
+/// No effect in native (replay) mode, where conditions are simply evaluated.
+pub fn freeze_decisions(on: bool) {
+    with(|e| e.frozen = on);
 }
 pub fn set_max_decisions(n: usize) {
     with(|e| e.max_decisions = n);
